@@ -43,13 +43,14 @@ import tempfile
 import numpy as np
 
 from harness import core
+from harness import mc_gen
 from harness import mc_util as mu
 from harness import pandora_util as pu
 from harness.props import c02
 
-GEN = ["gen_constants", "gen_refine_consts", "gen_valconst", "gen_callbacks"]
-EXTRACT_FILES = ["X02"]
-DRIVERS = ["x02"]
+GEN = ["gen_constants", "gen_refine_consts", "gen_valconst", "gen_callbacks"] + mc_gen.GEN
+EXTRACT_FILES = ["X02"] + mc_gen.EXTRACT
+DRIVERS = ["x02"] + mc_gen.DRIVER
 RULE = ("one family = one image pair 5..12 x 7..16 (integer radiometry, masks with valid/nodata/invalid cells on "
         "none/left/right/both sides), measure sad/ssd/census/zncc x window x subpix 1/2/4 (every measure x subpix at "
         "least once), a scalar interval J, a scalar interval I inside J (shared bound, strictly inside, one point), "
@@ -75,7 +76,8 @@ ASSUMES = [
     "step_ok, checked on the kernels of every real run by harness/props/c10.py); filter_size is odd (check_conf)",
 ]
 TRUSTED = ["numpy / xarray slicing semantics used by the oracles (np.array_equal with equal_nan)",
-           "rasterio GeoTIFF write/read of the grid files (decoding is C16's)"]
+           "rasterio GeoTIFF write/read of the grid files (decoding is C16's)"] + mc_gen.TRUSTED
+ASSUMES += mc_gen.ASSUMES
 
 INVALID_BITS = 0b01111000011
 
@@ -666,12 +668,17 @@ def run(ctx):
                            "constants of Gen.RefineConsts, Gen.Constants, Gen.ValConst are those the composed step models "
                            "use, 1 <= median_block, 1 <= bilateral_block (reflexivity / vm_compute on the regenerated files)",
                            "C09_callbacks_as_composed: Gen.Callbacks.gen_callback of filter_run / refinement_run / validation_run "
-                           "(ast of state_machine.py) is the call structure run_step composes (reflexivity)"]
+                           "(ast of state_machine.py) is the call structure run_step composes (reflexivity)"] \
+        + mc_gen.OBLIGATIONS_C09
     rng = ctx.rng
     model = core.Model("x02")
     if ctx.replay_case is not None:
         rc = ctx.replay_case
-        if rc.get("kind") == "pipeline":
+        if rc.get("kind") == "point_interval":
+            mc_gen.replay_one(ctx, rc)
+        elif rc.get("kind") in ("statements", "min_max"):
+            mc_gen.run(ctx)
+        elif rc.get("kind") == "pipeline":
             run_pipeline_case(ctx, rc)
         else:
             jobs = []
@@ -680,6 +687,7 @@ def run(ctx):
             check_family(ctx, fam, jobs)
             run_model_jobs(ctx, model, jobs)
         return
+    mc_gen.run(ctx)            # the generated index arithmetic against the real functions / statements
     n_fam = 44 if quick else 2500
     fams = [gen_family(rng, measure=m, subpix=s) for m in mu.MEASURES for s in (1, 2, 4)]
     for i, f in enumerate(fams):                      # every measure x subpix with and without aggregation
